@@ -354,3 +354,48 @@ func specOwnErrNil(v Item) bool {
 
 def section():
     return HEAD + fast_path() + int_slow() + CTOR + uint_slow() + float_slow() + CTOR2 + LIST
+
+
+def decoders():
+    out = []
+    for T, P, elem, conv in [("IntItem", "Int", "int64", {1: "int64(int8(owned[pos+k]))", 2: "int64(int16(uint16(owned[pos+2*k])<<8|uint16(owned[pos+2*k+1])))",
+                                                        4: "int64(int32(uint32(owned[pos+4*k])<<24|uint32(owned[pos+4*k+1])<<16|uint32(owned[pos+4*k+2])<<8|uint32(owned[pos+4*k+3])))",
+                                                        8: "int64(uint64(owned[pos+8*k])<<56|uint64(owned[pos+8*k+1])<<48|uint64(owned[pos+8*k+2])<<40|uint64(owned[pos+8*k+3])<<32|uint64(owned[pos+8*k+4])<<24|uint64(owned[pos+8*k+5])<<16|uint64(owned[pos+8*k+6])<<8|uint64(owned[pos+8*k+7]))"}),
+                              ("FloatItem", "Float", "float64", {4: "float64(math.Float32frombits(uint32(owned[pos+4*k])<<24|uint32(owned[pos+4*k+1])<<16|uint32(owned[pos+4*k+2])<<8|uint32(owned[pos+4*k+3])))",
+                                                             8: "math.Float64frombits(uint64(owned[pos+8*k])<<56|uint64(owned[pos+8*k+1])<<48|uint64(owned[pos+8*k+2])<<40|uint64(owned[pos+8*k+3])<<32|uint64(owned[pos+8*k+4])<<24|uint64(owned[pos+8*k+5])<<16|uint64(owned[pos+8*k+6])<<8|uint64(owned[pos+8*k+7]))"}),
+                              ("UintItem", "Uint", "uint64", {1: "uint64(owned[pos+k])", 2: "uint64(owned[pos+2*k])<<8|uint64(owned[pos+2*k+1])",
+                                                          4: "uint64(owned[pos+4*k])<<24|uint64(owned[pos+4*k+1])<<16|uint64(owned[pos+4*k+2])<<8|uint64(owned[pos+4*k+3])",
+                                                          8: "uint64(owned[pos+8*k])<<56|uint64(owned[pos+8*k+1])<<48|uint64(owned[pos+8*k+2])<<40|uint64(owned[pos+8*k+3])<<32|uint64(owned[pos+8*k+4])<<24|uint64(owned[pos+8*k+5])<<16|uint64(owned[pos+8*k+6])<<8|uint64(owned[pos+8*k+7])"})]:
+        ws = sorted(conv)
+        wc = " || ".join("byteSize == %d" % w for w in ws)
+        out.append("""
+//@ func decode%(T)s
+//@ paths split
+//@ requires 0 <= startPos && startPos < pos && pos <= len(owned) && (%(wc)s) && 0 <= length && length <= MaxByteSize && slab != nil
+//@ allocates [input] len(owned) + 1
+//@ ensures [mod]  length%%byteSize != 0 ==> result2 != nil
+//@ ensures [cut]  pos+length > len(owned) ==> result2 != nil
+//@ ensures [acc]  length%%byteSize == 0 && pos+length <= len(owned) ==> result2 == nil
+//@ ensures [ok]   result2 == nil ==> result1 == pos+length && specIs%(T)s(result0) && result0.(*%(T)s) != nil && inv%(T)s(result0.(*%(T)s)) &&
+//@                result0.(*%(T)s).itemErr == nil && result0.(*%(T)s).byteSize == uint32(byteSize) && int(result0.(*%(T)s).size)*byteSize == length &&
+//@                zzSameSlice(result0.(*%(T)s).raw(), owned[startPos:pos+length])
+""" % dict(T=T, wc=wc))
+        for w in ws:
+            if P == "Float":
+                out.append("//@ ensures [val%d] result2 == nil && byteSize == %d ==> forall k :: 0 <= k && k < length/%d ==> math.Float64bits(spec%sVal(result0.(*%s), k)) == math.Float64bits(%s)\n" % (w, w, w, P, T, conv[w]))
+            else:
+                out.append("//@ ensures [val%d] result2 == nil && byteSize == %d ==> forall k :: 0 <= k && k < length/%d ==> spec%sVal(result0.(*%s), k) == %s\n" % (w, w, w, P, T, conv[w]))
+        for w in ws:
+            if P == "Float":
+                out.append("//@ loop 1 invariant [v%d] byteSize == %d ==> forall k :: 0 <= k && k < i ==> math.Float64bits(vals[k]) == math.Float64bits(%s)\n" % (w, w, conv[w]))
+            else:
+                out.append("//@ loop 1 invariant [v%d] byteSize == %d ==> forall k :: 0 <= k && k < i ==> vals[k] == %s\n" % (w, w, conv[w]))
+        out.append("//@ loop 1 invariant [f] fresh(vals) && len(vals) == count && count*byteSize == length && pos+length <= len(owned) && count != 1\n")
+    text = "".join(out)
+    fixed = []
+    import re as _re
+    for l in text.split("\n"):
+        if l.startswith("//@ ensures") or l.startswith("//@                "):
+            l = _re.sub(r"(?<![\\w.])pos(?![\\w(])", "old(pos)", l)
+        fixed.append(l)
+    return "\n".join(fixed)
